@@ -113,11 +113,12 @@ type Exec struct {
 	Notes     []string
 	Viol      string
 	// world counters frozen when the first Close returned
-	frozen      bool
+	frozen                                     bool
 	hooksAtClose, writesAtClose, eventsAtClose int
-	MaxPubsBusy int // max publishers with an in-flight block request while no explicit sync was outstanding
-	explicitOut int
-	HoldBursts  []string
+	MaxPubsBusy                                int // max publishers with an in-flight block request while no explicit sync was outstanding
+	explicitOut                                int
+	HoldBursts                                 []string
+	handlerRemoved                             bool
 }
 
 func NewExec(w *World, sc Script, discovery bool, opts ...dagsync.Option) (*Exec, error) {
@@ -184,7 +185,7 @@ func (e *Exec) sample() {
 		if p.InFlight() > 0 {
 			busy++
 		}
-		if p.MaxInFlt > 1 {
+		if p.MaxInFlt > 1 && !e.handlerRemoved {
 			e.fail("publisher %d had %d block requests in flight at once: two syncs of one publisher ran concurrently", p.Idx, p.MaxInFlt)
 		}
 	}
@@ -192,8 +193,11 @@ func (e *Exec) sample() {
 		e.MaxPubsBusy = busy
 	}
 	if e.frozen {
-		if h, wr, ev := e.S.NHooks(), e.S.NWrites(), e.S.NEvents(); h != e.hooksAtClose || wr != e.writesAtClose || ev != e.eventsAtClose {
-			e.fail("after Close returned: hook calls %d -> %d, store writes %d -> %d, notifications %d -> %d", e.hooksAtClose, h, e.writesAtClose, wr, e.eventsAtClose, ev)
+		// Hook calls and store writes are counted synchronously inside the library's goroutines, so the
+		// comparison is exact. Notifications are not compared: what the reference listener still receives was
+		// queued before its channel was closed (a send after that would panic, which the bubble reports).
+		if h, wr := e.S.NHooks(), e.S.NWrites(); h != e.hooksAtClose || wr != e.writesAtClose {
+			e.fail("after Close returned: hook calls %d -> %d, store writes %d -> %d", e.hooksAtClose, h, e.writesAtClose, wr)
 		}
 	}
 }
@@ -454,6 +458,9 @@ func (e *Exec) post(i int, st Step) {
 	case 4:
 		e.start("post-latest", -1, i, func(o *Op) { _ = e.S.S.GetLatestSync(p.ID) })
 	case 5:
+		// removing a publisher's handler while its sync is running starts a fresh handler for the next
+		// announcement: the one-sync-at-a-time invariant (C08) is not claimed across RemoveHandler
+		e.handlerRemoved = true
 		e.start("post-remove", -1, i, func(o *Op) { _ = e.S.S.RemoveHandler(p.ID) })
 	case 6:
 		e.start("post-close", -1, i, func(o *Op) { o.Err = e.S.S.Close() })
@@ -463,6 +470,18 @@ func (e *Exec) post(i int, st Step) {
 // Finish opens all gates, lets everything drain and reaches exact quiescence.
 // It returns false if the bubble cannot become quiescent with all calls returned.
 func (e *Exec) Finish(closeAtEnd bool) {
+	// Close cancels announce-triggered syncs: when Close was called and no explicit sync is outstanding, a sync
+	// parked at a (still closed) gate must go away on its own. Normal cost: microseconds; 2 s of real time is the
+	// bound (only spent when the sync is in fact not cancelled).
+	if e.CloseAt >= 0 && e.anyParked() {
+		e.afterSettle()
+		if e.explicitOut == 0 {
+			e.W.SettleUntilCap(func() bool { return !e.anyParked() }, 10000)
+			if e.anyParked() {
+				e.fail("Close was called %d steps ago, no explicit sync is outstanding, yet an announce-triggered sync is still parked at its publisher's closed gate: it was not cancelled", len(e.Ops))
+			}
+		}
+	}
 	for _, p := range e.Pubs {
 		p.Open()
 	}
